@@ -182,6 +182,19 @@ def location(tier, carrier='list_none'):
     c = Case('location_test', [data_input('lon', 'pp', carrier), data_input('lat', 'ppp', carrier)], {}, n=2,
              pat={'lon': 'pp', 'lat': 'ppp'}, meta={'class': 'shape-mismatch'})
     yield c, specs.Location(c)
+    # equal sizes, different shapes: (2, 3) against (3, 2), a row against a column, a flat track against a column
+    def grid(name, nrows, ncols):
+        from .vec import Vec2
+        rows = [Vec.fresh([El(('x', name, i * ncols + j), False) for j in range(ncols)], kind='nd', dtype='f8', owner=name) for i in range(nrows)]
+        return Vec2(rows, ncols, 'nd', 'f8')
+    if carrier == 'list_none':
+        for (sa, sb) in (((2, 3), (3, 2)), ((1, 3), (3, 1)), ((3,), (3, 1)), ((2, 2), (4,))):
+            mk = lambda name, sh: grid(name, *sh) if len(sh) == 2 else Vec.fresh([El(('x', name, k), False) for k in range(sh[0])], kind='nd', dtype='f8', owner=name)
+            n = sa[0] * (sa[1] if len(sa) == 2 else 1)
+            for kw in ({}, dict(range_max=Fr(5))):
+                c = Case('location_test', [mk('lon', sa), mk('lat', sb)], dict(kw), n=n, pat={'lon': 'p' * n, 'lat': 'p' * n}, meta={'class': 'shape-mismatch'},
+                         label=f'location_test(lon of shape {sa}, lat of shape {sb}; {sorted(kw)})')
+                yield c, specs.Location(c)
 
 
 def speed(tier, carrier='list_none', tcarrier='dt64'):
